@@ -55,7 +55,7 @@ PROPS["C19"] = dict(
          "(Timestamp, Duration, Any, FieldMask, Empty, Struct with string/number/bool/null/list/nested values - it brings its own MarshalJSON -, String/Bytes/Int64/UInt64/Int32/Bool/DoubleValue). A message is plain data in the case (kind + texts + numbers + byte strings, filled in a fixed kind-specific way; absent elements = zero value / absent sub-message); "
          "string fields are valid UTF-8 as proto3 demands (marker, JSON-like and HTML texts included), bytes fields hold arbitrary bytes, timestamps/durations are brought into their documented ranges, doubles are finite (NaN/Inf are not marshalable - EmbedObject documents that it returns err unchanged then). "
          "Caller-owned targets of such a chain: a message of the same type (fresh per stage, then overwritten in place through protoreflect: every byte of bytes fields, every scalar, element and map entry at every depth) or any/map/RawMessage/[]byte as above (compared with what encoding/json decodes from the message's JSON text). "
-         "exhaustive: every list up to depth 2 over (plain text, JSON-like text, inner GRPCWrap, Join with a side error) x 10 classes x embedding level x 75 messages (3 per kind: empty, populated with hard texts/bytes/extreme numbers, small) x (fresh message + 6 owned kinds), a third of the combinations at depth 2; "
+         "exhaustive: every list up to depth 2 over (plain text, JSON-like text, inner GRPCWrap, Join with a side error) x 10 classes x embedding level x 75 messages (3 per kind: empty, populated with hard texts/bytes/extreme numbers, small) x (fresh message + 6 owned kinds), a sixth of the combinations at depth 2; "
          "rapid: one embedded object in four, half of them from the kinds with sub-messages of well-known types; batches put the chain's position into the message. Length targets of such chains pad wrap texts only; object-size targets do not apply. Verified first that the unchanged library round-trips all 25 kinds at every stage. "
          "Not covered: messages with oneof fields of interface type (encoding/json cannot decode into them - outside what EmbedObject/ExtractObject promise), re-use of one message variable across extractions (json.Unmarshal merges into a used struct), proto2 / unknown fields / extensions. "
          "RAW BYTES: error texts and object strings are Go strings, not necessarily UTF-8. Inside a case every text is valid UTF-8 and a rune U+F780..U+F7FF stands for the raw byte 0x80..0xFF (so the JSON form of the case is exact); the library gets the decoded bytes. "
